@@ -5,6 +5,7 @@ of `forbid(i, j)` ("the code of `i` is not `j`"), and of the constraints of `Bin
 import CnfgenModel.Fam.Subgraph
 import Lemmas.FamSubgraph
 import Lemmas.FamCount
+import Lemmas.VarsBinary
 namespace Cnfgen
 namespace Fam
 namespace G2
@@ -66,49 +67,10 @@ theorem bval_congr {f g : Nat → Bool} {n : Nat} (h : ∀ b, b < n → f b = g 
 
 /-! ### `clog2` -/
 
-theorem le_two_pow_clog2 (m : Nat) : m ≤ 2 ^ clog2 m := by
-  unfold clog2
-  cases h : (List.range (m + 1)).find? (fun b => decide (m ≤ 2 ^ b)) with
-  | none =>
-    simp only [Option.getD_none]
-    exact Nat.le_of_lt Nat.lt_two_pow_self
-  | some b =>
-    simp only [Option.getD_some]
-    have := List.find?_some h
-    simpa using this
+theorem le_two_pow_clog2 (m : Nat) : m ≤ 2 ^ clog2 m := (Vars.clog2_spec m).1
 
 /-- `clog2 m` is the least such exponent -/
-theorem clog2_le (m b : Nat) (h : m ≤ 2 ^ b) : clog2 m ≤ b := by
-  unfold clog2
-  cases hf : (List.range (m + 1)).find? (fun b => decide (m ≤ 2 ^ b)) with
-  | none =>
-    rw [List.find?_eq_none] at hf
-    by_cases hb : b < m + 1
-    · have := hf b (List.mem_range.2 hb)
-      simp at this; omega
-    · simp only [Option.getD_none]; omega
-  | some c =>
-    simp only [Option.getD_some]
-    rw [List.find?_eq_some_iff_append] at hf
-    obtain ⟨_, as, bs, hab, hall⟩ := hf
-    by_cases hcb : c ≤ b
-    · exact hcb
-    · -- b < c, so b is among the elements before c in `range (m+1)`
-      exfalso
-      have hc : c < m + 1 := by
-        have : c ∈ List.range (m + 1) := by rw [hab]; simp
-        exact List.mem_range.1 this
-      have hbmem : b ∈ as := by
-        have hsorted : (as ++ c :: bs).Pairwise (· < ·) := by rw [← hab]; exact List.pairwise_lt_range
-        have hbr : b ∈ as ++ c :: bs := by rw [← hab]; exact List.mem_range.2 (by omega)
-        rcases List.mem_append.1 hbr with h1 | h1
-        · exact h1
-        · rcases List.mem_cons.1 h1 with h2 | h2
-          · omega
-          · have := (List.pairwise_cons.1 (List.pairwise_append.1 hsorted).2.1).1 b h2
-            omega
-      have := hall b hbmem
-      simp at this; omega
+theorem clog2_le (m b : Nat) (h : m ≤ 2 ^ b) : clog2 m ≤ b := (Vars.clog2_spec m).2 b h
 
 /-! ### identifiers and `forbid` -/
 
